@@ -1631,7 +1631,7 @@ impl Scenario for C12 {
     }
     fn assumptions() -> Vec<String> {
         vec![
-            "positive finite node values (0.05..20, or discount-factor-like with zero rates in -2%..15% for linear_zero_rate); distinct node dates; node values of one kind per curve".into(),
+            "positive finite node values (0.05..20, or discount-factor-like with zero rates in -2%..15% for linear_zero_rate); distinct node dates; node values of one kind per curve for CurveDF::try_new, any mixture of float / Dual / Dual2 for the Python-facing constructor (floats then get the generated tag, duals keep their own variables); a curve with the Null interpolator is only asked what does not need a curve value (switches, ad, node read-back, index_value before the first node)".into(),
             "extrapolation queries lie within one interval length (at most 5 years) of the end nodes".into(),
             "numerical agreement judged with a running first-order error bound (1e5 eps x magnitude)".into(),
             "switch histories are exhaustive up to the stated depth per sampled curve; the curves themselves are sampled".into(),
